@@ -30,6 +30,7 @@ func Lookup(id string) PropertyFunc {
 	}
 	return func(c *Ctx) {
 		theProg = c.P
+		theClock = findClock(c.P)
 		f(c)
 	}
 }
